@@ -66,10 +66,12 @@ def probe(obj, gen, S, b):
     return row, np.asarray(out)
 
 
-def check_config(ips, c, params, rng):
-    """returns (violations, info) ; info has residuals for the evidence file"""
+def check_config(ips, c, params, rng, rebuilt_from=None):
+    """returns (violations, info) ; info has residuals for the evidence file.
+    rebuilt_from: the object is first built with THOSE parameters, steps a few rows, then gets r0 / L0 of `params` assigned and its
+    public make_covmats / makeAMatrix / makeBMatrix are run again (the recursion must then be the one of `params`)."""
     try:
-        return _check_config(ips, c, params, rng)
+        return _check_config(ips, c, params, rng, rebuilt_from)
     except NotScriptable:
         return _check_attributes(ips, c, params, rng)
 
@@ -104,12 +106,19 @@ def _check_attributes(ips, c, params, rng):
     return bad, info
 
 
-def _check_config(ips, c, params, rng):
+def _check_config(ips, c, params, rng, rebuilt_from=None):
     bad, info = [], {}
     ps, r0, L0 = params
     gen = ScriptedGenerator(int(rng.integers(0, 2 ** 31 - 1)))
     try:
-        obj = build(ips, c, params, gen)
+        obj = build(ips, c, rebuilt_from or params, gen)
+        if rebuilt_from:
+            for _ in range(3):
+                obj.add_row()
+            obj.r0, obj.L0 = r0, L0
+            obj.make_covmats()
+            obj.makeAMatrix()
+            obj.makeBMatrix()
     except Exception as ex:  # noqa - construction refused (LinAlgError): outside the property
         return None, dict(unconstructible=repr(ex)[:80])
     nx, slen, nz = c["nx"], c["slen"], len(c["Z"])
@@ -279,6 +288,22 @@ def run(run):
                 run.violation(key, detail, dict(lite, params=list(params), Q=c["Q"]))
     if built == 0:
         raise core.MachineryError("no configuration could be constructed and probed")
+    # ---- one object re-parameterised in place (same geometry and pixel scale, other r0 / L0) and rebuilt through its public methods
+    n_rebuilt = 0
+    for c in sorted(r.printed, key=lambda d: (d["variant"], d["req"], d["ncol"], d["f"]))[::3]:
+        if c["nx"] > 9:
+            continue
+        for first, second in (((0.5, 0.2, 20.0), (0.5, 0.1, 35.0)), ((0.1, 0.15, 50.0), (0.1, 0.3, 12.0))):
+            with np.errstate(all="ignore"):
+                bad, info = check_config(ips, c, second, rng, rebuilt_from=first)
+            if bad is None:
+                continue
+            n_rebuilt += 1
+            for key, detail in bad:
+                run.violation(key + ":after-parameters-changed-and-rebuilt", detail, dict({k: v for k, v in c.items() if k != "Q"}, params=list(second), Q=c["Q"],
+                                                                                        rebuilt_from=list(first)))
+    run.traces += n_rebuilt
+    run.aux["objects_rebuilt_with_other_parameters"] = n_rebuilt
     stab = []
     for n, ncol in ((4, 2), (6, 2), (8, 2), (5, 3)) if quick else ((4, 2), (6, 2), (8, 2), (5, 3), (12, 2), (16, 2), (9, 4)):
         rho, res = vk_stability(ips, n, ncol, PARAMS[0])
@@ -308,6 +333,6 @@ def replay(run, case):
         return
     rng = np.random.default_rng(run.seed)
     with np.errstate(all="ignore"):
-        bad, info = check_config(ips, case, tuple(case["params"]), rng)
+        bad, info = check_config(ips, case, tuple(case["params"]), rng, rebuilt_from=tuple(case["rebuilt_from"]) if case.get("rebuilt_from") else None)
     for key, detail in bad or []:
         run.violation(key, detail, case)
